@@ -49,7 +49,7 @@ RULE = ('calls are drawn from templates that make leakage visible: dotted string
         'sys.setswitchinterval(1e-6). Each call is first run alone (its shared-state accesses are logged '
         'for the model), caches are emptied, then the calls run under the schedule; outcome = repr of the '
         'value or (exception class, str(exc) with traceback file/line lines removed). non-trivial = at least '
-        'two calls with a yield point each, or a nesting, or a call ending in an exception; distinct = '
+        'two calls of which one is suspended while another runs and then resumed, or a nesting, or free-running threads; distinct = '
         'distinct (calls, schedule)')
 TRUSTED = ["CPython: a single dict lookup / store is atomic under the GIL; sys.exc_info() and the Python call "
            "stack are per thread (assumed)",
@@ -225,6 +225,40 @@ class Nested:
         return 'N%d' % self.nid
 
 
+class NestedS(Nested):
+    """a spec that evaluates its inner spec through `Spec(inner).glom(target, scope=S)` — the way
+    `First` re-enters glom with the *running* scope passed in"""
+
+    def __call__(self, x, scope=None):
+        import glom
+        ctx = self.ctx
+        if ctx.stubs is not None:
+            out, exc = ctx.stubs[self.nid]
+            if exc is not None:
+                raise copy.copy(exc)
+            return ctx.stub_values[self.nid]
+        target = dec(self.call['target'])
+        spec = build(self.call['spec'], ctx)
+        if ctx.logs is not None:
+            ctx.logs.append([])
+        holder = {}
+
+        def run():
+            holder['v'] = glom.Spec(spec).glom(target, scope=scope)
+            return holder['v']
+        out, exc = outcome_of(run)
+        if ctx.logs is not None:
+            evs = ctx.logs.pop()
+            ctx.logs[-1].append(['nested', evs, out])
+        ctx.inner[self.nid] = (out, exc, holder.get('v'))
+        if exc is not None:
+            raise exc
+        return holder['v']
+
+    def __repr__(self):
+        return 'NS%d' % self.nid
+
+
 def build(sj, ctx):
     import glom
     from glom import T, S, A, Coalesce, Fold, Fill, Match, Val
@@ -274,12 +308,14 @@ def build(sj, ctx):
         return t
     if k == 'nested':
         return Nested(ctx, sj[1], sj[2])
+    if k == 'specglom':
+        return glom.Call(NestedS(ctx, sj[1], sj[2]), args=(T,), kwargs={'scope': S})
     raise ValueError(sj)
 
 
 def nested_ids(sj, acc):
     if isinstance(sj, list):
-        if sj and sj[0] == 'nested':
+        if sj and sj[0] in ('nested', 'specglom'):
             acc.append((sj[1], sj[2]))
             nested_ids(sj[2]['spec'], acc)
         else:
@@ -588,6 +624,10 @@ def nested_templates(u):
     out.append(('n1_uncaught', {'target': tgt, 'spec': ['tuple', [['path', 'a'], ['nested', 1, inner_fail]]]}))
     out.append(('n1_boom_caught', {'target': tgt, 'spec': ['coalesce', [['nested', 1, inner_boom], ['path', 'a.e']], 'dflt']}))
     out.append(('n1_group', {'target': D(rows={'l': [D(k='x', v=1), D(k='y', v=2)]}), 'spec': ['tuple', [['path', 'rows'], ['group', ['T', [['[', 'k']]], ['nested', 1, inner_ok]]]]}))
+    # re-entry through Spec(inner).glom(target, scope=S) from a step of a chain (what First does)
+    out.append(('ns_uncaught', {'target': tgt, 'spec': ['tuple', [['path', 'a'], ['specglom', 1, inner_fail]]]}))
+    out.append(('ns_caught', {'target': tgt, 'spec': ['coalesce', [['tuple', [['path', 'a'], ['specglom', 1, inner_boom]]], ['path', 'a.e']]]}))
+    out.append(('ns_ok', {'target': tgt, 'spec': ['tuple', [['sset', 'x', ['val', 'outer']], ['path', 'a'], ['specglom', 1, inner_ok], ['dict', [['v', ['T', []]], ['x', ['sget', 'x']]]]]]}))
     # depth 2 and 3
     out.append(('n2', {'target': tgt, 'spec': ['tuple', [['sset', 'x', ['val', 'outer']], ['nested', 1, inner2], ['dict', [['v', ['T', []]], ['x', ['sget', 'x']]]]]]}))
     out.append(('n3_caught', {'target': tgt, 'spec': ['tuple', [['sset', 'x', ['val', 'outer']], ['nested', 1, inner3], ['dict', [['v', ['T', []]], ['x', ['sget', 'x']]]]]]}))
@@ -674,7 +714,7 @@ def generate(rng, tier, scale, **focus):
             yield {'mode': 'nested', 'calls': [call], 'names': [name]}
     # --- nestings inside scheduled threads
     nts = nested_templates(fresh())
-    for name, call in nts[:4] if quick else nts:
+    for name, call in (nts[:4] + nts[6:8]) if quick else nts:
         other = templates(fresh())[rng.randrange(len(names))]
         ny = count_yields(call['spec'])
         segs = [ny + 1, other[2] + 1]
@@ -725,12 +765,26 @@ def key(case):
     return {k: case.get(k) for k in ('mode', 'calls', 'schedule', 'reps')}
 
 
+def interleaved(schedule):
+    """does some call run, get suspended while another call runs, and run again?"""
+    seen_done = set()
+    prev = None
+    for t in schedule or []:
+        if t != prev:
+            if t in seen_done:
+                return True
+            if prev is not None:
+                seen_done.add(prev)
+        prev = t
+    return False
+
+
 def nontrivial(case, verdict):
-    if case['mode'] == 'nested':
+    if case['mode'] in ('nested', 'free'):
         return True
-    if len(case['calls']) >= 2 and (verdict.get('yields', 0) >= 2):
+    if len(case['calls']) >= 2 and interleaved(case.get('schedule')):
         return True
-    return any('err' in (t.get('alone') or {}) for t in case.get('threads', []))
+    return False
 
 
 def focus(disagreements, facts_changed):
